@@ -1,6 +1,9 @@
 package main
 
 import (
+	"bytes"
+	"sort"
+	"encoding/json"
 	"fmt"
 	"math/big"
 	"strings"
@@ -148,8 +151,20 @@ func c10(r *hx.Run) {
 		}
 		bodies = append(bodies, b)
 	}
+	// every member of a genuine TCB Info / QE Identity body (once per member name; thorough: every occurrence) replaced by every
+	// other kind of JSON value — the custom decoders (hex strings, status strings, dates) see numbers, booleans, nulls,
+	// one-character scalars, objects and arrays where they expect strings, and vice versa
+	kinds := []string{`7`, `0`, `-1`, `1e3`, `true`, `null`, `""`, `"7"`, `"zz"`, `"0"`, `{}`, `[]`, `[1]`, `"\u0041"`}
+	tcbBodies := c10MemberSwaps(hb, kinds, !thorough)
+	qeBodies := c10MemberSwaps(honest.Getter.M[honest.QeURL].Body, kinds, !thorough)
 	for _, which := range []string{"tcb", "qe"} {
-		for _, b := range bodies {
+		bs := bodies
+		if which == "tcb" {
+			bs = append(append([][]byte{}, bodies...), tcbBodies...)
+		} else {
+			bs = append(append([][]byte{}, bodies...), qeBodies...)
+		}
+		for _, b := range bs {
 			s := honestSpec(rng)
 			s.GC, s.CR, s.Honest, s.Fault = true, rng.IntN(2) == 0, false, "arbitrary-"+which+"-body"
 			if which == "tcb" {
@@ -199,4 +214,52 @@ func c10(r *hx.Run) {
 		s.PckCrl.Revoked = append(s.PckCrl.Revoked, big.NewInt(int64(900000+i)))
 	}
 	emitWorld(r, world.Build(s), nil, "crl:large")
+}
+
+
+// c10MemberSwaps: copies of a JSON body in which one member value (object member or array element, at any depth) is replaced by
+// each of the given JSON texts.  oncePerName: only the first occurrence of every member name is replaced.
+func c10MemberSwaps(body []byte, kinds []string, oncePerName bool) [][]byte {
+	var out [][]byte
+	var root any
+	dec := json.NewDecoder(bytes.NewReader(body))
+	dec.UseNumber()
+	if err := dec.Decode(&root); err != nil {
+		return nil
+	}
+	type marker struct{}
+	seen := map[string]bool{}
+	var walk func(v any, name string, set func(any))
+	walk = func(v any, name string, set func(any)) {
+		if !oncePerName || !seen[name] {
+			seen[name] = true
+			for _, k := range kinds {
+				set(json.RawMessage(k))
+				if b, err := json.Marshal(root); err == nil {
+					out = append(out, b)
+				}
+			}
+			set(v)
+		}
+		switch x := v.(type) {
+		case map[string]any:
+			keys := make([]string, 0, len(x))
+			for k := range x {
+				keys = append(keys, k)
+			}
+			sort.Strings(keys)
+			for _, k := range keys {
+				k := k
+				walk(x[k], k, func(n any) { x[k] = n })
+			}
+		case []any:
+			for i := range x {
+				i := i
+				walk(x[i], name+"[]", func(n any) { x[i] = n })
+			}
+		}
+	}
+	walk(root, "$", func(n any) { root = n })
+	_ = marker{}
+	return out
 }
